@@ -2,6 +2,7 @@ package c08
 
 import (
 	"encoding/json"
+	"errors"
 	"fmt"
 	"sync"
 	"sync/atomic"
@@ -25,31 +26,75 @@ type bulkCase struct {
 	Producers int   `json:"producers"`
 	Consumers int   `json:"consumers"`
 	Sizes     []int `json:"sizes"` // values per phase
+	// Big: the elements are 328-byte structs (an id and 40 words that repeat it) instead of ints: a value
+	// that comes out is one that went in, whole
+	Big bool `json:"big,omitempty"`
+}
+
+type bigElem struct {
+	ID  int
+	Pad [40]int
+}
+
+func mkBig(v int) bigElem {
+	e := bigElem{ID: v}
+	for i := range e.Pad {
+		e.Pad[i] = v
+	}
+	return e
+}
+
+func bigID(e bigElem) (int, bool) {
+	for _, p := range e.Pad {
+		if p != e.ID {
+			return e.ID, false
+		}
+	}
+	return e.ID, true
+}
+
+func runBulk(c bulkCase) (key, msg string) {
+	if c.Big {
+		return runBulkT(c, mkBig, bigID)
+	}
+	return runBulkT(c, func(v int) int { return v }, func(v int) (int, bool) { return v, true })
 }
 
 func (c bulkCase) String() string { b, _ := json.Marshal(c); return string(b) }
 
-func runBulk(c bulkCase) (key, msg string) {
-	ll := fpgo.NewLinkedListQueue[int]()
-	cq := fpgo.NewConcurrentQueue[int](ll)
-	cs := fpgo.NewConcurrentStack[int](ll)
+func runBulkT[T any](c bulkCase, mk func(int) T, idOf func(T) (int, bool)) (key, msg string) {
+	ll := fpgo.NewLinkedListQueue[T]()
+	cq := fpgo.NewConcurrentQueue[T](ll)
+	cs := fpgo.NewConcurrentStack[T](ll)
+	var torn int64
 	put := func(i, v int) error {
 		if c.Stack {
-			return cs.Push(v)
+			return cs.Push(mk(v))
 		}
 		if i%2 == 0 {
-			return cq.Offer(v)
+			return cq.Offer(mk(v))
 		}
-		return cq.Put(v)
+		return cq.Put(mk(v))
 	}
 	get := func(i int) (int, error) {
-		if c.Stack {
-			return cs.Pop()
+		var e T
+		var err error
+		switch {
+		case c.Stack:
+			e, err = cs.Pop()
+		case i%2 == 0:
+			e, err = cq.Poll()
+		default:
+			e, err = cq.Take()
 		}
-		if i%2 == 0 {
-			return cq.Poll()
+		if err != nil {
+			return 0, err
 		}
-		return cq.Take()
+		v, whole := idOf(e)
+		if !whole {
+			atomic.AddInt64(&torn, 1)
+		}
+		return v, nil
 	}
 	isEmpty := func(err error) bool { return err == fpgo.ErrQueueIsEmpty || err == fpgo.ErrStackIsEmpty }
 	var mu sync.Mutex
@@ -121,6 +166,9 @@ func runBulk(c bulkCase) (key, msg string) {
 		if key != "" {
 			return
 		}
+		if n := atomic.LoadInt64(&torn); n > 0 {
+			return "C08/invented", fmt.Sprintf("phase %d: %d removals returned a value that is a mix of two offered values (328-byte elements)", pi, n)
+		}
 		seen := make([]int, total)
 		for q := range got {
 			lastOf := map[int]int{}
@@ -165,6 +213,7 @@ func runBulk(c bulkCase) (key, msg string) {
 var bulkDirected = []bulkCase{
 	{Producers: 1, Consumers: 1, Sizes: []int{800, 400, 800, 400, 900, 300}},
 	{Stack: true, Producers: 2, Consumers: 2, Sizes: []int{600, 300, 700}},
+	{Producers: 4, Consumers: 4, Sizes: []int{1000, 1000}, Big: true},
 }
 
 func TestBulkRegress(t *testing.T) {
@@ -203,7 +252,7 @@ func TestBulkPhases(t *testing.T) {
 	}
 	vlib.Check(t, "bulk-phases", 40, 600, func(t *rapid.T) {
 		c := bulkCase{Stack: rapid.Bool().Draw(t, "stack"), Producers: rapid.IntRange(1, 4).Draw(t, "producers"), Consumers: rapid.IntRange(1, 4).Draw(t, "consumers"),
-			Sizes: rapid.SliceOfN(rapid.SampledFrom([]int{8, 100, 257, 300, 400, 600, 800, 1000}), 2, 6).Draw(t, "sizes")}
+			Sizes: rapid.SliceOfN(rapid.SampledFrom([]int{8, 100, 257, 300, 400, 600, 800, 1000}), 2, 6).Draw(t, "sizes"), Big: rapid.Bool().Draw(t, "big")}
 		vlib.S().Eval("bulk-phases")
 		vlib.S().NonTrivial("bulk-phases", c.String())
 		if key, msg := runBulk(c); key != "" {
@@ -225,10 +274,13 @@ type sliceDeque struct {
 	items  []int
 	calls  int
 	every  int
+	asErr  bool // the fault is a returned error instead of a panic
 	inside int32
 }
 
 type injectedFault struct{}
+
+var errInjectedFault = errors.New("c08: the wrapped structure failed (injected)")
 
 func (s *sliceDeque) Put(v int) error   { return s.Offer(v) }
 func (s *sliceDeque) Push(v int) error  { return s.Offer(v) }
@@ -236,14 +288,20 @@ func (s *sliceDeque) Offer(v int) error { s.items = append(s.items, v); return n
 func (s *sliceDeque) Take() (int, error) {
 	return s.Poll()
 }
-func (s *sliceDeque) fault() {
+func (s *sliceDeque) fault() error {
 	s.calls++
 	if s.every > 0 && s.calls%s.every == 0 {
+		if s.asErr {
+			return errInjectedFault
+		}
 		panic(injectedFault{})
 	}
+	return nil
 }
 func (s *sliceDeque) Poll() (int, error) {
-	s.fault()
+	if err := s.fault(); err != nil {
+		return 0, err
+	}
 	if len(s.items) == 0 {
 		return 0, fpgo.ErrQueueIsEmpty
 	}
@@ -252,7 +310,9 @@ func (s *sliceDeque) Poll() (int, error) {
 	return v, nil
 }
 func (s *sliceDeque) Pop() (int, error) {
-	s.fault()
+	if err := s.fault(); err != nil {
+		return 0, err
+	}
 	if len(s.items) == 0 {
 		return 0, fpgo.ErrStackIsEmpty
 	}
@@ -264,6 +324,7 @@ func (s *sliceDeque) Pop() (int, error) {
 type faultyCase struct {
 	Stack   bool `json:"stack"`
 	Every   int  `json:"every"`
+	AsErr   bool `json:"asErr"` // the wrapped removal fails with an error of its own instead of a panic
 	Workers int  `json:"workers"`
 	N       int  `json:"n"` // values per producer, 1..N (0 is never offered)
 }
@@ -271,7 +332,7 @@ type faultyCase struct {
 func (c faultyCase) String() string { b, _ := json.Marshal(c); return string(b) }
 
 func runFaulty(c faultyCase) (key, msg string) {
-	w := &sliceDeque{every: c.Every}
+	w := &sliceDeque{every: c.Every, asErr: c.AsErr}
 	cq := fpgo.NewConcurrentQueue[int](w)
 	cs := fpgo.NewConcurrentStack[int](w)
 	total := c.Workers * c.N
@@ -299,6 +360,9 @@ func runFaulty(c faultyCase) (key, msg string) {
 			v, err = cq.Poll()
 		} else {
 			v, err = cq.Take()
+		}
+		if err == errInjectedFault {
+			return 0, nil, true // the wrapped structure's own failure, handed through: nothing was removed
 		}
 		return
 	}
@@ -336,8 +400,14 @@ func runFaulty(c faultyCase) (key, msg string) {
 		if faulted {
 			continue
 		}
-		if err != nil {
+		if err == fpgo.ErrQueueIsEmpty || err == fpgo.ErrStackIsEmpty {
+			if len(w.items) > 0 {
+				return "C08/empty-not-true", fmt.Sprintf("a removal reported %v while the wrapped structure holds %d values and nobody else is using it (the wrapped removal fails every %d-th call with an error of its own: %v)", err, len(w.items), c.Every, c.AsErr)
+			}
 			break
+		}
+		if err != nil {
+			return "C08/error-value", fmt.Sprintf("a removal failed with %v", err)
 		}
 		note(v)
 	}
@@ -363,7 +433,7 @@ func TestFaultyWrapped(t *testing.T) {
 		t.Skip()
 	}
 	vlib.Check(t, "faulty-wrapped", 200, 3000, func(t *rapid.T) {
-		c := faultyCase{Stack: rapid.Bool().Draw(t, "stack"), Every: rapid.SampledFrom([]int{0, 2, 3, 7, 97}).Draw(t, "every"),
+		c := faultyCase{Stack: rapid.Bool().Draw(t, "stack"), Every: rapid.SampledFrom([]int{0, 2, 3, 7, 97}).Draw(t, "every"), AsErr: rapid.Bool().Draw(t, "asErr"),
 			Workers: rapid.IntRange(1, 4).Draw(t, "workers"), N: rapid.IntRange(1, 200).Draw(t, "n")}
 		vlib.S().Eval("faulty-wrapped")
 		if c.Every > 0 {
